@@ -375,7 +375,7 @@ def conds(tier):
                        [P("c%d" % i, "int", 0, 4) for i in range(1, k + 1)] + [P("emptypos", "bool"), P("firstid", "int", None, None)],
                        fixed={"k": k}, shard=sh, timeout=600 if q else 3000, functions=FUNCS[:2],
                        note="all 4^%d class sequences; brackets_firstid: unbounded symbolic integer" % k))
-    shapes = [(2, 2), (2, 3), (3, 3)] if q else [(2, 2), (2, 3), (3, 3), (3, 4)]
+    shapes = [(1, 1), (1, 3), (2, 2), (2, 3), (3, 3)] if q else [(1, 1), (1, 3), (2, 1), (2, 2), (2, 3), (3, 3), (3, 4)]
     for (m, n) in shapes:
         big = m * n >= 9
         tie = q or m * n > 6        # large shapes: option selectors tied to each other (every value of every selector still occurs)
